@@ -267,7 +267,7 @@ package scan
 //@   props C19
 //@   observe GenerateRequests
 //@   entry row fail:  [call GenerateRequests(rg.delegate, ctx, r) as (rq, e)] when e != nil && ret0 == nil && ret1 == e -> exit
-//@   entry row start: [call GenerateRequests(rg.delegate, ctx, r) as (rq, e) ; go (*liveRequestGenerator).GenerateRequests$1(bind_o, bind_c, bind_rq2, bind_g2, bind_r2)]
+//@   entry row start: [call GenerateRequests(rg.delegate, ctx, r) as (rq, e) ; go (*liveRequestGenerator).GenerateRequests$1{out: bind_o, ctx: bind_c, requests: bind_rq2, rg: bind_g2, r: bind_r2}]
 //@                       when e == nil && ret1 == nil && ret0 == o && rq2 == rq && c == ctx && g2 == rg && r2 == r -> exit
 
 // ---------------------------------------------------------------------------------------------
